@@ -65,6 +65,8 @@ def run(run, model):
     run.do(twins.colour, model)
     run.do(inv.self_rule, model, "C13.sync-reject-invariant")
     run.do(parity, model)
+    from . import c19
+    run.do(c19.invariant_init, model)
     run.minimum("C13.twins", 2)
     run.minimum("C13.await-dispatch", 12)
     run.minimum("C13.sync-reject", 12)
